@@ -144,10 +144,19 @@ fn date_pic(kind: u8) -> Field {
     }
 }
 
-//@ unit c18_date_single prop=C18,C05,C03,C02 clock=1 chunks=range:0:6 quick=all unwind=14 mem=6 timeout=2400 stubs=chrono::Local::now=>crate::verif_support::stub_local_now,crate::util::try_format=>crate::verif_support::stub_try_format bound="Date::parse with the single-field picture given by the parameter (0 DD, 1 MM, 2 YYYY, 3 YYY, 4 YY, 5 Y, 6 DDD), every ASCII text of length <= 4, every current local date 1970..9999 (symbolic clock): missing year/month come from the clock, missing day is 1, short years are completed with the leading digits of the current year; invalid results are errors"
+//@ unit c18_date_single prop=C18,C05,C03,C02 clock=1 chunks=range:0:6 quick=all unwind=14 mem=6 timeout=2400 stubs=chrono::Local::now=>crate::verif_support::stub_local_now,crate::util::try_format=>crate::verif_support::stub_try_format bound="Date::parse with the single-field picture given by the parameter (0 DD, 1 MM, 2 YYYY, 3 YYY, 4 YY, 5 Y, 6 DDD), every ASCII text of length <= 3 (4 for YYYY, 2 for Y), every current local date 1970..9999 (symbolic clock): missing year/month come from the clock, missing day is 1, short years are completed with the leading digits of the current year; invalid results are errors"
 fn c18_date_single(kind: u8) {
+    // text length: the field's digits plus one more byte (sign, blank or a left-over character)
+    match kind {
+        2 => date_single_body::<4>(kind),
+        5 => date_single_body::<2>(kind),
+        _ => date_single_body::<3>(kind),
+    }
+}
+
+fn date_single_body<const N: usize>(kind: u8) {
     let (cy, cm, _cd, _, _, _, _) = any_clock(1970, 9999);
-    let (buf, len) = ascii_text::<4>();
+    let (buf, len) = ascii_text::<N>();
     let s = &buf[..len];
     let text = unsafe { std::str::from_utf8_unchecked(s) };
     let fmt = fmt1(date_pic(kind));
@@ -226,7 +235,7 @@ fn c18_date_single(kind: u8) {
         Some((y, m, d)) if o_valid_ymd(y, m, d) => match r {
             Ok(x) => {
                 assert!(x.days() == crate::common::date2julian(y, m, d) - 2_440_588);
-                kani::cover!(len == 4);
+                kani::cover!(len == N);
                 kani::cover!(len == 1);
             }
             Err(_) => assert!(false),
@@ -305,7 +314,7 @@ fn c05_time_single(kind: u8) {
 
 // ------------------------------------------------------------- C18: independence of the clock
 
-//@ unit c18_full_date_no_clock prop=C18 chunks=ints:0,1 quick=first:1 unwind=10 mem=12 timeout=3600 stubs=chrono::Local::now=>crate::verif_support::stub_local_now,crate::util::try_format=>crate::verif_support::stub_try_format bound="parameter 0: picture YYYYMM with every 6-digit text; parameter 1 (thorough): picture YYYYMMDD with every 8-digit text: the result is the date denoted (day 1 when omitted) or an error, and the (symbolic) clock is not consulted at all"
+//@ unit c18_full_date_no_clock prop=C18 chunks=ints:2/ints:2,0,1 quick=all unwind=10 mem=12 timeout=3600 stubs=chrono::Local::now=>crate::verif_support::stub_local_now,crate::util::try_format=>crate::verif_support::stub_try_format bound="parameter 2 (quick): picture YYYYMM with every text 20ddmm (four symbolic digits); parameter 0 (thorough): every 6-digit text; parameter 1 (thorough): picture YYYYMMDD with every 8-digit text: the result is the date denoted (day 1 when omitted) or an error, and the (symbolic) clock is not consulted at all"
 fn c18_full_date_no_clock(with_day: i64) {
     any_clock(1970, 9999);
     let dg: [u8; 8] = kani::any();
@@ -319,6 +328,10 @@ fn c18_full_date_no_clock(with_day: i64) {
     while i < 8 {
         buf[i] = dg[i] + b'0';
         i += 1;
+    }
+    if with_day == 2 {
+        // quick variant: picture YYYYMM with the century digits fixed to "20" (four symbolic digits)
+        kani::assume(dg[0] == 2 && dg[1] == 0);
     }
     let n = if with_day == 1 { 8 } else { 6 };
     let text = unsafe { std::str::from_utf8_unchecked(&buf[..n]) };
@@ -357,7 +370,7 @@ fn reparse_equal<const N: usize>(a: &Sink<N>, b: &Sink<N>) -> bool {
     true
 }
 
-//@ unit c06_time_hm prop=C06 chunks=ints:0,1 quick=all unwind=10 mem=12 timeout=3600 stubs=chrono::Local::now=>crate::verif_support::stub_local_now,crate::util::try_format=>crate::verif_support::stub_try_format,crate::time::Time::extract=>crate::format::verif_h_fmt_fields::stub_time_extract bound="every hour and minute of the day (parameter 0: picture HH24MI, parameter 1: MIHH24 - field order swapped, adjacent fixed-width fields): format, parse the text with the same Formatter, get the value back, re-format byte for byte"
+//@ unit c06_time_hm prop=C06 tier=thorough chunks=ints:0,1 unwind=10 mem=12 timeout=7200 stubs=chrono::Local::now=>crate::verif_support::stub_local_now,crate::util::try_format=>crate::verif_support::stub_try_format,crate::time::Time::extract=>crate::format::verif_h_fmt_fields::stub_time_extract bound="every hour and minute of the day (parameter 0: picture HH24MI, parameter 1: MIHH24 - field order swapped, adjacent fixed-width fields): format, parse the text with the same Formatter, get the value back, re-format byte for byte"
 fn c06_time_hm(swapped: i64) {
     any_clock(1970, 9999);
     let h: u32 = kani::any();
@@ -491,7 +504,7 @@ fn c05_ampm_hh12(order: i64) {
     std::mem::forget(fmt);
 }
 
-//@ unit c06_date_ddd prop=C06 clock=1 unwind=14 mem=10 timeout=3000 stubs=chrono::Local::now=>crate::verif_support::stub_local_now,crate::util::try_format=>crate::verif_support::stub_try_format,crate::common::julian2date=>crate::verif_support::ghost_julian2date bound="every date of the current year (symbolic clock year 1970..=9999, every month and day incl. 29 February and 31 December of leap years) with the picture DDD: format gives three digits, parsing them with the same Formatter returns the date, re-formatting reproduces the text"
+//@ unit c06_date_ddd prop=C06 tier=thorough clock=1 unwind=14 mem=10 timeout=7200 stubs=chrono::Local::now=>crate::verif_support::stub_local_now,crate::util::try_format=>crate::verif_support::stub_try_format,crate::common::julian2date=>crate::verif_support::ghost_julian2date bound="every date of the current year (symbolic clock year 1970..=9999, every month and day incl. 29 February and 31 December of leap years) with the picture DDD: format gives three digits, parsing them with the same Formatter returns the date, re-formatting reproduces the text"
 fn c06_date_ddd() {
     let (cy, _, _, _, _, _, _) = any_clock(1970, 9999);
     let m: u32 = kani::any();
@@ -517,5 +530,56 @@ fn c06_date_ddd() {
     kani::cover!(m == 12 && d == 31 && o_leap(cy));
     kani::cover!(m == 2 && d == 29);
     kani::cover!(m == 1 && d == 1);
+    std::mem::forget(fmt);
+}
+
+//@ unit c06_time_one prop=C06 chunks=range:0:3 quick=all unwind=8 mem=8 timeout=1500 stubs=chrono::Local::now=>crate::verif_support::stub_local_now,crate::util::try_format=>crate::verif_support::stub_try_format,crate::time::Time::extract=>crate::format::verif_h_fmt_fields::stub_time_extract bound="every value of one time component (parameter 0: hour with HH24, 1: hour with HH12 for 01..12 o'clock in the morning, 2: minute with MI, 3: second with SS; the other components zero): format, parse the text with the same Formatter, same value, same text"
+fn c06_time_one(kind: u8) {
+    any_clock(1970, 9999);
+    let x: u32 = kani::any();
+    let (h, mi, sc) = match kind {
+        0 => {
+            kani::assume(x < 24);
+            (x, 0, 0)
+        }
+        1 => {
+            // HH12 alone is lossless for 00:00 (written 12) .. 11:00 only when read back as AM: the
+            // parser takes a bare 12-hour value as is, so 12 -> 12:00; use 1..=12
+            kani::assume(x >= 1 && x <= 12);
+            (x, 0, 0)
+        }
+        2 => {
+            kani::assume(x < 60);
+            (0, x, 0)
+        }
+        _ => {
+            kani::assume(x < 60);
+            (0, 0, x)
+        }
+    };
+    let t = Time::try_from_hms(h, mi, sc, 0).unwrap();
+    unsafe {
+        crate::format::verif_h_fmt_fields::GHOST_TIME = (t.usecs(), h, mi, sc, 0);
+    }
+    let fmt = fmt1(time_pic(kind));
+    let mut s1: Sink<16> = Sink::new();
+    assert!(fmt.format(t, &mut s1).is_ok());
+    assert!(s1.len == 2);
+    let text = unsafe { std::str::from_utf8_unchecked(&s1.buf[..2]) };
+    let r: Result<Time> = fmt.parse(text);
+    match r {
+        Ok(v) => {
+            assert!(v == t);
+            let mut s2: Sink<16> = Sink::new();
+            unsafe {
+                crate::format::verif_h_fmt_fields::GHOST_TIME = (v.usecs(), h, mi, sc, 0);
+            }
+            assert!(fmt.format(v, &mut s2).is_ok());
+            assert!(reparse_equal(&s1, &s2));
+        }
+        Err(_) => assert!(false),
+    }
+    kani::cover!(x == 12);
+    kani::cover!(x == 1);
     std::mem::forget(fmt);
 }
